@@ -251,6 +251,9 @@ def run(verdict, exe, n_exec, seed, tag="trace", texts_per=3, calls_per=12):
                 lines.append("parsebuf c1 %s" % enc(text))
             except ValueError:
                 pass
+        if rng.random() < 0.6:
+            steps.append(("Print", None))
+            lines.append("print c1")
         lines.append("free c1")
         plans.append((schema, pcfg, steps))
         scripts.append(("t%d" % n, "\n".join(lines)))
@@ -273,7 +276,12 @@ def run(verdict, exe, n_exec, seed, tag="trace", texts_per=3, calls_per=12):
         events.append({"e": "Init", "schema": schema, "pcfg": pcfg, "obs": conv_sec(lines[0]["ctx"]["c1"])})
         for (kind, arg), line in zip(steps, lines[1:]):
             obs = conv_sec(line["ctx"]["c1"])
-            if kind == "Parse":
+            if kind == "Print":
+                ls = line["text"].split("\n")
+                if ls and ls[-1] == "":
+                    ls.pop()
+                events.append({"e": "Print", "lines": ls})
+            elif kind == "Parse":
                 d = line["diag"]
                 events.append({"e": "Parse", "toks": arg, "ret": line["ret"], "obs": obs, "ndiag": len(d),
                                "dfile": ("buf" if d and d[0]["file"] == "[buf]" else (d[0]["file"] if d else "")) or "",
